@@ -322,7 +322,7 @@ def _shape(node):
 
 # ---------------------------------------------------------------- SB: sibling agreement of the four families
 
-from .lie_common import normalised_return, FAM_RE, ALG_RE      # noqa: E402
+from .lie_common import normalised_return, FAM_RE, ALG_RE, rule_masks      # noqa: E402
 from .. import layout as L                                      # noqa: E402
 
 
@@ -819,7 +819,8 @@ def rule_vmap(repo, tier):
 
 
 def _rules_core(repo, tier):
-    return [rule_vt(repo, tier), rule_sb(repo, tier), rule_lt(repo, tier), rule_pure(repo, tier), rule_dep(repo, tier), rule_saved(repo, tier), rule_mat4(repo, tier), rule_hrow(repo, tier), rule_vmap(repo, tier), __import__('sa.limits', fromlist=['x']).rule_bernoulli(repo, 'C04.BERN', OP, [('sim3_Jl', 'sim3_Jl_inv', 'sim3_adj')])]
+    # the Jacobian helpers the hand-written backwards are built from: same mask / guarded-division obligations as the forward coefficient helpers
+    return list(rule_masks(repo, 'C04.MP', 'C04.GD', [(OP, 'so3_Jl'), (OP, 'so3_Jl_inv'), (OP, 'calcQ')], floor=3)) + [rule_vt(repo, tier), rule_sb(repo, tier), rule_lt(repo, tier), rule_pure(repo, tier), rule_dep(repo, tier), rule_saved(repo, tier), rule_mat4(repo, tier), rule_hrow(repo, tier), rule_vmap(repo, tier), __import__('sa.limits', fromlist=['x']).rule_bernoulli(repo, 'C04.BERN', OP, [('sim3_Jl', 'sim3_Jl_inv', 'sim3_adj')])]
 
 
 @guarded
@@ -950,4 +951,4 @@ def rules(repo, tier):
                                                       'before it is complete - a later call with the same object and other contents must not be answered from it',
                                                       ['pypose.lietensor.lietensor', 'pypose.lietensor.operation', 'pypose.lietensor.basics', 'pypose.lietensor.utils'], floor=3),
             rule_optional(repo, 'C04.OPT', ['pypose.lietensor.lietensor', 'pypose.lietensor.operation', 'pypose.lietensor.basics', 'pypose.lietensor.utils'])] + mode_rules(repo, 'C04', ['pypose.lietensor.lietensor', 'pypose.lietensor.operation', 'pypose.lietensor.basics', 'pypose.lietensor.utils']) + [rule_callsig(repo, 'C04.SIG', ['pypose.lietensor.lietensor', 'pypose.lietensor.operation', 'pypose.lietensor.basics', 'pypose.lietensor.utils']), rule_docsig(repo, 'C04.DOC', ['pypose.lietensor.lietensor', 'pypose.lietensor.operation', 'pypose.lietensor.basics', 'pypose.lietensor.utils'])] + [
-            rule_axisdefault(repo, 'C04.AXDEF', ['pypose.lietensor.lietensor', 'pypose.lietensor.operation', 'pypose.lietensor.basics', 'pypose.lietensor.utils', 'pypose.lietensor.convert', 'pypose.basics.ops']), __import__('sa.axisdefault', fromlist=['x']).rule_frontaxis(repo, 'C04.BAX', ['pypose.lietensor.lietensor', 'pypose.lietensor.operation', 'pypose.lietensor.basics', 'pypose.lietensor.utils', 'pypose.lietensor.convert']), __import__('sa.axisdefault', fromlist=['x']).rule_batchbranch(repo, 'C04.BIF', ['pypose.lietensor.lietensor', 'pypose.lietensor.operation', 'pypose.lietensor.basics', 'pypose.basics.ops'])]
+            rule_axisdefault(repo, 'C04.AXDEF', ['pypose.lietensor.lietensor', 'pypose.lietensor.operation', 'pypose.lietensor.basics', 'pypose.lietensor.utils', 'pypose.lietensor.convert', 'pypose.basics.ops']), __import__('sa.axisdefault', fromlist=['x']).rule_frontaxis(repo, 'C04.BAX', ['pypose.lietensor.lietensor', 'pypose.lietensor.operation', 'pypose.lietensor.basics', 'pypose.lietensor.utils', 'pypose.lietensor.convert']), __import__('sa.unused', fromlist=['x']).rule_unused(repo, 'C04.UNUSEDF', ['pypose.func.jac'], floor=1), __import__('sa.axisdefault', fromlist=['x']).rule_batchbranch(repo, 'C04.BIF', ['pypose.lietensor.lietensor', 'pypose.lietensor.operation', 'pypose.lietensor.basics', 'pypose.basics.ops'])]
